@@ -709,7 +709,11 @@ struct Exec
 		}
 		else { asked = fr ? n : n * ch ; bytes = n * ch * stype_size (T) ; unit = fr ? 1 : ch ; }
 		if (bytes > (64 << 20)) { r.skipped = true ; return ; }
-		if (plan.at ("cfg").geti ("gran", 1) > 1 && n % plan.at ("cfg").geti ("gran", 1)) { r.skipped = true ; return ; }		// see op_seek
+		if (plan.at ("cfg").geti ("gran", 1) > 1 && n % plan.at ("cfg").geti ("gran", 1))		// see op_seek
+		{	// except: a short write as the very last call before close, at the start of a block
+			bool last = op.geti ("tail", 0) && t.ops && t.pc + 1 < t.ops->size () && (*t.ops) [t.pc + 1].gets ("op") == "close" && t.wr % plan.at ("cfg").geti ("gran", 1) == 0 && t.wr + n <= t.frames ;
+			if (!last) { r.skipped = true ; return ; }
+		}
 		StoreModel &m = sm [t.store] ;
 		if (d0.ok && d0.v [DG_IEEE_REPLACE]) m.ieee_replace = true ;
 		DataDesc dd = op.has ("data") ? data_desc_from (op.at ("data")) : t.data ;
@@ -1930,6 +1934,25 @@ struct Exec
 		int nat = c.size >= 0 ? c.size : c.size == -1 ? ch * 8 : ch * 4 ;
 		int64_t dv = op.geti ("dsz", 3) ;		// datasize variant
 		int datasize = dv == 0 ? 0 : dv == 1 ? 1 : dv == 2 ? (nat > 0 ? nat - 1 : 0) : dv == 3 ? nat : dv == 4 ? nat + 1 : dv == 5 ? nat + 8 : dv == 6 ? 4096 : dv == 7 ? 70000 : (int) (dv % 700) ;
+		// sizes that are also values of the enumerations some SET commands take in this argument (a GET must not read them as one)
+		if (dv == 100064) datasize = SF_AMBISONIC_NONE ; else if (dv == 100065) datasize = SF_AMBISONIC_B_FORMAT ;
+		else if (dv >= 200000)
+		{	// a buffer that ends at, or one to three bytes behind, the start of a field of the structure the command fills in
+			static const std::map<int, std::vector<int>> fields = {
+				{ SFC_GET_CART_INFO, { (int) offsetof (SF_CART_INFO, title), (int) offsetof (SF_CART_INFO, artist), (int) offsetof (SF_CART_INFO, out_cue), (int) offsetof (SF_CART_INFO, level_reference),
+					(int) offsetof (SF_CART_INFO, post_timers), (int) offsetof (SF_CART_INFO, url), (int) offsetof (SF_CART_INFO, tag_text_size), (int) offsetof (SF_CART_INFO, tag_text) } },
+				{ SFC_GET_BROADCAST_INFO, { (int) offsetof (SF_BROADCAST_INFO, originator), (int) offsetof (SF_BROADCAST_INFO, origination_date), (int) offsetof (SF_BROADCAST_INFO, time_reference_low),
+					(int) offsetof (SF_BROADCAST_INFO, version), (int) offsetof (SF_BROADCAST_INFO, umid), (int) offsetof (SF_BROADCAST_INFO, coding_history_size), (int) offsetof (SF_BROADCAST_INFO, coding_history) } },
+				{ SFC_GET_INSTRUMENT, { (int) offsetof (SF_INSTRUMENT, basenote), (int) offsetof (SF_INSTRUMENT, loop_count), (int) offsetof (SF_INSTRUMENT, loops), (int) (offsetof (SF_INSTRUMENT, loops) + sizeof (int) * 4) } },
+				{ SFC_GET_CUE, { 4, 4 + (int) sizeof (SF_CUE_POINT), 4 + 2 * (int) sizeof (SF_CUE_POINT), 4 + 99 * (int) sizeof (SF_CUE_POINT) } },
+				{ SFC_GET_LOOP_INFO, { (int) offsetof (SF_LOOP_INFO, time_sig_den), (int) offsetof (SF_LOOP_INFO, num_beats), (int) offsetof (SF_LOOP_INFO, bpm), (int) offsetof (SF_LOOP_INFO, future) } },
+				{ SFC_GET_FORMAT_INFO, { (int) offsetof (SF_FORMAT_INFO, name), (int) offsetof (SF_FORMAT_INFO, extension) } },
+				{ SFC_GET_EMBED_FILE_INFO, { (int) offsetof (SF_EMBED_FILE_INFO, length) } },
+				{ SFC_GET_CURRENT_SF_INFO, { (int) offsetof (SF_INFO, samplerate), (int) offsetof (SF_INFO, format), (int) offsetof (SF_INFO, seekable) } } } ;
+			auto fi = fields.find (c.id) ;
+			datasize = fi == fields.end () ? nat : fi->second [(size_t) ((dv - 200000) / 4) % fi->second.size ()] + (int) ((dv - 200000) % 4) ;
+			probe ("storm_field_boundary_datasize") ;
+		}
 		if (datasize < 0) datasize = 0 ;
 		bool null_data = op.geti ("null_data", 0) != 0 ;
 		// mutators are injected only where the caller asked for "any" commands; their arguments are kept harmless
